@@ -40,7 +40,11 @@ RULE = ("deterministic boundary corpus: instants at and +-1us/+-1ms around 1970-
         "(k<=12), 1 day+-1us, 2d03:00:00.250001, 30 days+-1us; nested JSON data (unicode, quotes, backslashes, "
         "control characters, lone surrogate, floats incl. 1e-7 / 1e22 / -0.0 / subnormal / max, big ints, null, "
         "booleans, empty containers, depth 40); single inserts (listing + lookup after each) and bulk inserts of "
-        "sizes 1, 2, 99, 100, 101, 201 (both orders) and 0; then seeded random mixed scenarios; every scenario on "
+        "sizes 1, 2, 99, 100, 101, 201 (both orders) and 0; then seeded random mixed scenarios; then HISTORIES in which "
+        "the bucket is not append-only: delete of the event at every position of buckets of 1-4 events / of every "
+        "event / of the newest, replace, replace_last, bulk upsert (stored ids mixed with new events), writes to a "
+        "second bucket in between, delete + re-create of the bucket, each followed by further inserts (listing + "
+        "lookup of every listed id after every step), deterministic then seeded random; every scenario on "
         "memory, sqlite, peewee; non-trivial = an event with a sub-ms instant, a non-UTC offset, a duration of a "
         "day or more, or nested data")
 
@@ -286,7 +290,16 @@ def run_scenario(backend, steps, tmpdir, n, collect=True):
             record([5, 2, spec_w(s)], lambda: ds["b2"].insert(mk_event(s)), lambda r: [1, [ev_w(observed(r))]])
         bucket = ds["b1"]
         before = {}                  # id -> (ts, dur, canon data) as last listed
+        from . import c01_hist
+        import types
+        env = types.SimpleNamespace(ds=ds, bucket=bucket, record=record, ev_w=ev_w, spec_w=spec_w, fails=fails,
+                                    backend=backend)
         for si, (kind, arg) in enumerate(steps):
+            if kind in c01_hist.HIST_KINDS:      # delete / replace / upsert / other bucket / re-create: c01_hist.py
+                before = c01_hist.run_step(env, si, kind, arg, before)
+                if fails:
+                    break
+                continue
             specs = [arg] if kind == "one" else arg
             exps = [expected(s) for s in specs]
             new_ids = []
@@ -508,8 +521,9 @@ def run_jobs(jobs, procs=None):
 
 
 def write_scenario_file(backend, name, steps, upto):
+    from . import c01_hist
     obj = {"backend": backend, "scenario": name,
-           "steps": [[k, spec_json(a) if k == "one" else [spec_json(s) for s in a]] for k, a in steps[:upto + 1]]}
+           "steps": [c01_hist.step_json(k, a) for k, a in steps[:upto + 1]]}
     d = os.path.join(common.VERIF, "replays", "C01")
     os.makedirs(d, exist_ok=True)
     import hashlib
@@ -564,7 +578,8 @@ def minimise(backend, steps, si, clause):
 def steps_from_file(obj):
     def spec(j):
         return {"t": j["instant_us"], "off": j["tz_offset_min"], "d": j["duration_us"], "x": json.loads(j["data_json"])}
-    return [(k, spec(a) if k == "one" else [spec(s) for s in a]) for k, a in obj["steps"]]
+    from . import c01_hist
+    return [c01_hist.step_unjson(k, a, spec) for k, a in obj["steps"]]
 
 
 # ---------------------------------------------------------------------------
@@ -655,6 +670,9 @@ def main(argv=None):
 
     quick = ck.tier == "quick"
     scenarios = boundary_scenarios(ck.rng) + [random_scenario(ck.rng, i) for i in range(40 if quick else 2500)]
+    # histories that also delete / replace / upsert / re-create before inserting again (harness/c01_hist.py)
+    from . import c01_hist
+    scenarios += c01_hist.history_corpus() + [c01_hist.random_history(ck.rng, i) for i in range(40 if quick else 2500)]
     _WORK["scenarios"] = scenarios
     _WORK["own_data"] = [copy.deepcopy(x) for x in DATA_CORPUS if x] + [rand_data(ck.rng) for _ in range(4 if quick else 60)]
     jobs = [("scn", be, n) for n in range(len(scenarios)) for be in sh.BACKENDS] + [("own", be, 0) for be in sh.BACKENDS]
@@ -667,14 +685,24 @@ def main(argv=None):
             for clause, text, si in r[be]["fails"][:3]:
                 if len(ck.violations) >= 20:
                     break
-                msteps, msi = minimise(be, steps, si, clause)
+                msteps, msi = (c01_hist.minimise if c01_hist.is_history(steps) else minimise)(be, steps, si, clause)
                 path = write_scenario_file(be, name, msteps, msi)
                 ck.failing_input(f"C01:{be}:{clause}", f"[{be}] {text} (scenario {name}, step {si})",
                                  {"backend": be, "scenario_file": path, "failing_step": msi, "clause": clause,
-                                  "last_step": [msteps[msi][0], spec_json(msteps[msi][1]) if msteps[msi][0] == "one"
-                                                else [spec_json(x) for x in msteps[msi][1][:3]]],
+                                  "last_step": (c01_hist.step_json(*msteps[msi]) if msteps[msi][0] != "many" else
+                                                ["many", [spec_json(x) for x in msteps[msi][1][:3]]]),
+                                  "history_shape": c01_hist.shape(msteps) if c01_hist.is_history(msteps) else None,
                                   "observed": text,
                                   "rerun": f"VERIF_REPO={common.REPO} PYTHONPATH={common.REPO}:{common.VERIF} /venv/bin/python -m harness.c01_replay {path}"})
+            if c01_hist.is_history(steps):
+                kinds = [k for k, _ in steps]
+                # non-trivial = an id-less insert arrives after an event was deleted from the bucket
+                after_del = any(k in ("one", "many", "ups") for k in kinds[kinds.index("del"):]) if "del" in kinds else False
+                ck.note_case([be, "history", [c01_hist.step_json(k, a) for k, a in steps]], nontrivial=after_del)
+                for k in kinds:
+                    ck.count(f"{be}:history-step:{k}")
+                ck.count(f"{be}:history-scenarios" + ("-inserting-after-a-delete" if after_del else "-other"))
+                continue
             for kind, arg in steps:
                 for s in ([arg] if kind == "one" else arg):
                     ck.note_case([be, kind == "one", s["t"], s["off"], s["d"], canon(s["x"])], nontrivial=nontrivial(s))
@@ -682,7 +710,7 @@ def main(argv=None):
                 if kind == "many":
                     ck.count(f"{be}:bulk-size-{len(arg) if len(arg) in (0, 1, 2, 99, 100, 101, 201) else 'other'}")
         for kind, arg in steps:
-            for s in ([arg] if kind == "one" else arg):
+            for s in c01_hist.specs_of(kind, arg):
                 ck.count("instant:" + ("sub-ms" if s["t"] % 1000 else "ms-aligned"))
                 ck.count("offset:" + ("utc" if s["off"] == 0 else "odd-minutes" if s["off"] % 30 else "non-utc"))
                 ck.count("duration:" + ("0" if s["d"] == 0 else "<1s" if s["d"] < 10 ** 6 else "<1d" if s["d"] < DAY else ">=1d"))
